@@ -4,7 +4,10 @@
 (* RequestDoubleQueue against the OBJECT layer of ReqQueue (QPut,           *)
 (* QPutForce, QTake, QClear, QSetCap and the result functions).             *)
 (*                                                                          *)
-(* Events (harness/c11).  An element is [producer, seq]; [] = empty-handed. *)
+(* Events (harness/c11).  An element is [producer, seq] or, for a nothing-   *)
+(* like value, [producer, seq, tag] (ReqQueue, VALUES); what comes OUT of    *)
+(* the queue (results, callback arguments) is logged as the VALUE the        *)
+(* harness saw: [producer, seq], [tag], or [] for nil / empty-handed.        *)
 (*   Reset cap cb              new queue: capacities [c1,c2]; cb = the       *)
 (*                             failure/overflow callbacks are installed      *)
 (*   Call p o ...              a call made while no other call is running:   *)
@@ -13,6 +16,9 @@
 (*                             concurrent with others)                       *)
 (*   Ret  p o ok|out [cb] [T el]   the call returned with this result        *)
 (*   Size size                 [Size1, Size2] read while no mutator runs     *)
+(*   Inv/Ret p "Size" k n      a size read that MAY overlap other calls      *)
+(*                             (k = 0: Size(), 1: Size1(), 2: Size2()): it   *)
+(*                             takes the lock, so it is linearizable too     *)
 (*   Logs failed overflow      every callback argument so far, in the order  *)
 (*                             the callbacks ran (they run under the lock)   *)
 (*   Timeout / Panic           a call that did not return / panicked: the    *)
@@ -26,6 +32,18 @@
 (* empty-handed took effect when nothing was queued; a timed get may come   *)
 (* back empty-handed only if el >= T, both read from the millisecond clock  *)
 (* the queue itself uses, start before the call and end after it.           *)
+(* A timed get is NOT one atomic step when nil-valued elements are about:   *)
+(* each of its polls is (deviation NilSwallowed of ReqQueue); Lin(p) then    *)
+(* swallows one nil-valued element and the call either goes on polling or    *)
+(* comes back empty-handed (only with el >= T).  The harness therefore logs  *)
+(* every timed get as Inv/Ret, also in single-goroutine histories (the Ret   *)
+(* then carries the sizes).                                                  *)
+(* Callback-held schedules (gen "held"): a failure/overflow callback blocks  *)
+(* -- inside the queue's critical section -- until the other goroutines of   *)
+(* the schedule have been invoked and have returned or a bounded wait is     *)
+(* over.  Nothing new for the specification: the recorded history must be    *)
+(* linearizable like any other (a call that answers "nothing" while the      *)
+(* lock holder keeps the content non-empty has no linearization point).      *)
 (* The search over linearization points is TLC's (DFS queue, high-water     *)
 (* mark of the cursor).                                                     *)
 (***************************************************************************)
@@ -37,14 +55,14 @@ VARIABLES l,      \* cursor
 
 tvars == <<vars, l, pend, cbon>>
 
-Idle == [st |-> "idle", o |-> "none", k |-> 0, e |-> Nil, c |-> <<0, 0>>, ok |-> FALSE, out |-> Nil, cb |-> <<>>]
+Idle == [st |-> "idle", o |-> "none", k |-> 0, e |-> Nil, c |-> <<0, 0>>, ok |-> FALSE, out |-> Nil, cb |-> <<>>, n |-> 0]
 
 TraceInit == Init /\ l = 1 /\ HwmInit /\ pend = [p \in Proc |-> Idle] /\ cbon = TRUE
 
 Ev == Trace[l]
 At(e) == IsEv(l, e) /\ l' = l + 1
 
-OpNames == {"Put", "PutForce", "Get", "GetNoWait", "GetTimeout", "Clear", "SetCap"}
+OpNames == {"Put", "PutForce", "Get", "GetNoWait", "GetTimeout", "Clear", "SetCap", "Size"}
 Puts == {"Put", "PutForce"}
 Gets == {"Get", "GetNoWait", "GetTimeout"}
 
@@ -52,11 +70,12 @@ Gets == {"Get", "GetNoWait", "GetTimeout"}
 WellFormed(c) ==
   /\ Has(c, "p") /\ c.p \in Proc
   /\ Has(c, "o") /\ c.o \in OpNames
-  /\ c.o \in Puts => Has(c, "k") /\ c.k \in Lanes /\ Has(c, "e") /\ Len(c.e) = 2
+  /\ c.o \in Puts => Has(c, "k") /\ c.k \in Lanes /\ Has(c, "e") /\ Len(c.e) \in {2, 3}
+  /\ c.o = "Size" => Has(c, "k") /\ c.k \in {0, 1, 2}
   /\ c.o = "SetCap" => Has(c, "c") /\ Len(c.c) = 2
 
 AsCall(c) == [Idle EXCEPT !.st = "inv", !.o = c.o,
-                          !.k = IF c.o \in Puts THEN c.k ELSE 0,
+                          !.k = IF c.o \in Puts \cup {"Size"} THEN c.k ELSE 0,
                           !.e = IF c.o \in Puts THEN c.e ELSE Nil,
                           !.c = IF c.o = "SetCap" THEN c.c ELSE <<0, 0>>]
 
@@ -67,6 +86,7 @@ Result(c) ==
     [] c.o = "PutForce" -> [c EXCEPT !.st = "done", !.ok = ForceRet(c.k),
                                      !.cb = [i \in 1..NEvict(c.k) |-> q[c.k][i]]]
     [] c.o \in Gets     -> [c EXCEPT !.st = "done", !.out = NextOut]
+    [] c.o = "Size"     -> [c EXCEPT !.st = "done", !.n = IF c.k = 0 THEN Len(q[1]) + Len(q[2]) ELSE Len(q[c.k])]
     [] OTHER            -> [c EXCEPT !.st = "done"]
 
 \* the call takes effect (p: the goroutine that receives a delivered element)
@@ -78,18 +98,26 @@ Apply(p, c) ==
           IF FrontLane = 0 THEN UNCHANGED dvars ELSE QTake(p)
     [] c.o = "Clear"    -> QClear
     [] c.o = "SetCap"   -> QSetCap(c.c)
+    [] c.o = "Size"     -> UNCHANGED dvars
+
+\* the next poll of timed get c draws a nil-valued element (NilSwallowed)
+Swallows(c) == c.o = "GetTimeout" /\ FrontLane # 0 /\ NilValued(NextOut)
+
+Vals(s) == [i \in 1..Len(s) |-> Val(s[i])]
+ValLog(s) == [i \in 1..Len(s) |-> <<s[i][1], Val(s[i][2])>>]
 
 \* the logged result e equals the result r the specification computed
 Match(e, r) ==
   /\ r.o \in Puts =>
        /\ Has(e, "ok") /\ e.ok = r.ok
-       /\ (cbon /\ Has(e, "cb")) => e.cb = r.cb            \* callback arguments of this call, in order
+       /\ (cbon /\ Has(e, "cb")) => e.cb = Vals(r.cb)      \* callback arguments of this call, in order
        /\ ~cbon => (Has(e, "cb") => e.cb = <<>>)
   /\ r.o \in Gets =>
-       /\ Has(e, "out") /\ e.out = r.out
-       /\ r.o = "Get" => r.out # Nil
+       /\ Has(e, "out") /\ e.out = Val(r.out)              \* the VALUE of the element taken
+       /\ r.o = "Get" => r.out # Nil                        \* a blocking get took an element (whatever its value)
        /\ (r.o = "GetTimeout" /\ r.out = Nil) =>             \* TimedGetHonest
              Has(e, "T") /\ Has(e, "el") /\ e.el >= e.T
+  /\ r.o = "Size" => Has(e, "n") /\ e.n = r.n
 
 SizeMatch(e) == Has(e, "size") => e.size = <<Len(q'[1]), Len(q'[2])>>
 
@@ -108,6 +136,7 @@ TraceCall ==
   /\ At("Call") /\ WellFormed(Ev)
   /\ \A p \in Proc : pend[p].st = "idle"
   /\ LET c == AsCall(Ev) IN
+       /\ ~Swallows(c)                 \* (a timed get that swallows is not one step: logged as Inv/Ret)
        /\ Apply(Ev.p, c)
        /\ Match(Ev, Result(c))
   /\ SizeMatch(Ev)
@@ -119,12 +148,17 @@ TraceInv ==
   /\ pend' = [pend EXCEPT ![Ev.p] = AsCall(Ev)]
   /\ UNCHANGED <<vars, cbon>>
 
-\* silent: the pending call of p takes effect now
+\* silent: the pending call of p takes effect now; a timed get whose poll draws a
+\* nil-valued element swallows it and either polls on or comes back empty-handed
 Lin(p) ==
   /\ l <= NTrace
   /\ pend[p].st = "inv"
-  /\ Apply(p, pend[p])
-  /\ pend' = [pend EXCEPT ![p] = Result(pend[p])]
+  /\ IF Swallows(pend[p])
+       THEN /\ QSwallow(p)
+            /\ \/ UNCHANGED pend
+               \/ pend' = [pend EXCEPT ![p] = [@ EXCEPT !.st = "done", !.out = Nil]]
+       ELSE /\ Apply(p, pend[p])
+            /\ pend' = [pend EXCEPT ![p] = Result(pend[p])]
   /\ UNCHANGED <<pvars, l, cbon>>
 
 TraceRet ==
@@ -132,6 +166,7 @@ TraceRet ==
   /\ Has(Ev, "p") /\ Ev.p \in Proc /\ Has(Ev, "o")
   /\ pend[Ev.p].st = "done" /\ pend[Ev.p].o = Ev.o
   /\ Match(Ev, pend[Ev.p])
+  /\ Has(Ev, "size") => Ev.size = <<Len(q[1]), Len(q[2])>>     \* logged only when nothing else was in flight
   /\ pend' = [pend EXCEPT ![Ev.p] = Idle]
   /\ UNCHANGED <<vars, cbon>>
 
@@ -146,13 +181,13 @@ TraceSize ==
 TraceLogs ==
   /\ At("Logs")
   /\ cbon
-  /\ Has(Ev, "failed") /\ Ev.failed = failedLog
-  /\ Has(Ev, "overflow") /\ Ev.overflow = overflowLog
+  /\ Has(Ev, "failed") /\ Ev.failed = ValLog(failedLog)
+  /\ Has(Ev, "overflow") /\ Ev.overflow = ValLog(overflowLog)
   /\ UNCHANGED <<vars, pend, cbon>>
 
 \* state invariants of ReqQueue re-evaluated after every step (the quadratic
 \* PerProducerOrder is replaced by its step form)
-InvAll == TypeOK /\ Fifo /\ Conservation /\ RefusalInert
+InvAll == TypeOK /\ Fifo /\ Conservation /\ RefusalInert /\ SwallowOnlyNil
 
 TraceNext ==
   /\ \/ TraceReset
